@@ -75,6 +75,11 @@ def parse_template(text):
                     item["name"] = w[5:]
                 if w.startswith("fn="):
                     item["fn"] = w[3:]
+                if w == "optional":
+                    # a leaf item nobody else in the unit depends on: if its
+                    # anchors are lost it is left out (and reported undecided)
+                    # instead of making the whole unit undecided
+                    item["optional"] = True
                 if w.startswith("back="):
                     # the anchor lies inside the item head (pretty-printed
                     # expansions break lines): the item starts at the nearest
@@ -444,6 +449,72 @@ def undo_regions(text, regions):
     return REGION.sub(lambda m: regions[int(m.group(1))][0], text)
 
 
+def _extract_item(it, repo, extra_sources, region_base, dropped, externals):
+    path = os.path.join(repo, it["file"])
+    if it["file"].startswith("@"):
+        # compiler-generated source (rustc -Zunpretty=expanded), produced on every run
+        path = (extra_sources or {}).get(it["file"], "")
+    if not os.path.exists(path):
+        raise ExtractError("missing source file " + it["file"])
+    src = open(path).read()
+    start = find_unique(src, it["anchor"], it["file"])
+    if it.get("back"):
+        m = None
+        for m in re.finditer(r"\b%s\b" % re.escape(it["back"]), src[:start]):
+            pass
+        if m is None:
+            raise ExtractError("no `%s` before anchor %r" % (it["back"], it["anchor"]))
+        start = m.start()
+    item = Item(src, start, f'{it["file"]}:{it["anchor"]}')
+    item.strip_attrs()
+    for op in it["ops"]:
+        o, arg, sub, text = op["op"], op["arg"], op["sub"], op["text"]
+        if o == "ret":
+            item.op_ret(sub, arg.strip())
+        elif o == "impl_arg":
+            item.op_impl_arg(sub)
+        elif o == "spec":
+            item.op_spec(sub, text)
+        elif o == "body_prefix":
+            item.op_body_prefix(sub, text)
+        elif o == "loop":
+            item.op_loop(sub, int(arg), text)
+        elif o == "loop_pre":
+            item.op_loop_pre(sub, int(arg), text)
+        elif o == "loop_body_prefix":
+            item.op_loop_body_prefix(sub, int(arg), text)
+        elif o == "loop_body_suffix":
+            item.op_loop_body_suffix(sub, int(arg), text)
+        elif o == "before":
+            item.op_body_suffix_before(sub, ANCH.search(arg).group(1), text)
+        elif o == "loop_iter":
+            n, name = arg.split()
+            item.op_loop_iter(sub, int(n), name)
+        elif o == "external_body":
+            item.op_external(sub, False)
+            externals.append(f'{it["file"]}: {sub or it["anchor"]}')
+        elif o == "external_body_drop":
+            item.op_external(sub, True)
+            externals.append(f'{it["file"]}: {sub or it["anchor"]}')
+        elif o == "attr_before":
+            item.op_attr_before(sub, arg)
+        elif o == "drop":
+            a = ANCH.search(arg).group(1)
+            item.op_drop(a)
+            dropped.append(f'{it["file"]}: {a}')
+        elif o == "replace":
+            ms = ANCH.findall(arg)
+            item.op_replace(sub, ms[0], ms[1])
+        else:
+            raise ExtractError("unknown op " + o)
+    text, regs = item.render(region_base)
+    # faithfulness self-check, per item
+    back = undo_regions(text, regs)
+    if rslex.token_texts(back) != [t.text for t in item.toks]:
+        raise ExtractError("faithfulness self-check failed for " + item.what)
+    return text, regs, item, src, start
+
+
 def build_unit(template_path, repo, out_path, extra_sources=None):
     """Generate the Verus unit. Returns a dict describing the extraction."""
     tpl = open(template_path).read()
@@ -459,75 +530,21 @@ def build_unit(template_path, repo, out_path, extra_sources=None):
     line = 1
     dropped = []
     externals = []
+    skipped = []
     for kind, seg in segs:
         if kind == "text":
             out.append(seg)
             line += seg.count("\n")
             continue
         it = seg
-        path = os.path.join(repo, it["file"])
-        if it["file"].startswith("@"):
-            # compiler-generated source (rustc -Zunpretty=expanded), produced on every run
-            path = (extra_sources or {}).get(it["file"], "")
-        if not os.path.exists(path):
-            raise ExtractError("missing source file " + it["file"])
-        src = open(path).read()
-        start = find_unique(src, it["anchor"], it["file"])
-        if it.get("back"):
-            m = None
-            for m in re.finditer(r"\b%s\b" % re.escape(it["back"]), src[:start]):
-                pass
-            if m is None:
-                raise ExtractError("no `%s` before anchor %r" % (it["back"], it["anchor"]))
-            start = m.start()
-        item = Item(src, start, f'{it["file"]}:{it["anchor"]}')
-        item.strip_attrs()
-        for op in it["ops"]:
-            o, arg, sub, text = op["op"], op["arg"], op["sub"], op["text"]
-            if o == "ret":
-                item.op_ret(sub, arg.strip())
-            elif o == "impl_arg":
-                item.op_impl_arg(sub)
-            elif o == "spec":
-                item.op_spec(sub, text)
-            elif o == "body_prefix":
-                item.op_body_prefix(sub, text)
-            elif o == "loop":
-                item.op_loop(sub, int(arg), text)
-            elif o == "loop_pre":
-                item.op_loop_pre(sub, int(arg), text)
-            elif o == "loop_body_prefix":
-                item.op_loop_body_prefix(sub, int(arg), text)
-            elif o == "loop_body_suffix":
-                item.op_loop_body_suffix(sub, int(arg), text)
-            elif o == "before":
-                item.op_body_suffix_before(sub, ANCH.search(arg).group(1), text)
-            elif o == "loop_iter":
-                n, name = arg.split()
-                item.op_loop_iter(sub, int(n), name)
-            elif o == "external_body":
-                item.op_external(sub, False)
-                externals.append(f'{it["file"]}: {sub or it["anchor"]}')
-            elif o == "external_body_drop":
-                item.op_external(sub, True)
-                externals.append(f'{it["file"]}: {sub or it["anchor"]}')
-            elif o == "attr_before":
-                item.op_attr_before(sub, arg)
-            elif o == "drop":
-                a = ANCH.search(arg).group(1)
-                item.op_drop(a)
-                dropped.append(f'{it["file"]}: {a}')
-            elif o == "replace":
-                ms = ANCH.findall(arg)
-                item.op_replace(sub, ms[0], ms[1])
-            else:
-                raise ExtractError("unknown op " + o)
-        text, regs = item.render(len(regions))
+        try:
+            text, regs, item, src, start = _extract_item(it, repo, extra_sources, len(regions), dropped, externals)
+        except (ExtractError, ValueError, StopIteration) as ex:
+            if it.get("optional"):
+                skipped.append(f'{it["name"] or it["anchor"]}: {ex}')
+                continue
+            raise ExtractError(str(ex))
         regions.update(regs)
-        # faithfulness self-check, per item
-        back = undo_regions(text, regs)
-        if rslex.token_texts(back) != [t.text for t in item.toks]:
-            raise ExtractError("faithfulness self-check failed for " + item.what)
         nlines = text.count("\n") + 1
         items.append({"file": it["file"], "anchor": it["anchor"], "props": it["props"],
                       "name": it["name"] or it["anchor"], "first_line": line,
@@ -536,6 +553,7 @@ def build_unit(template_path, repo, out_path, extra_sources=None):
                       "tokens": len(item.toks)})
         out.append(text + "\n")
         line += nlines
+        continue
     full = "".join(out)
     with open(out_path, "w") as f:
         f.write(full)
@@ -543,7 +561,7 @@ def build_unit(template_path, repo, out_path, extra_sources=None):
     for rid, (orig, kind) in regions.items():
         kinds[kind] = kinds.get(kind, 0) + 1
     return {"items": items, "regions": len(regions), "edit_kinds": kinds,
-            "dropped": dropped, "externals": externals, "unit_file": out_path,
+            "dropped": dropped, "externals": externals, "skipped": skipped, "unit_file": out_path,
             "tokens_checked": sum(i["tokens"] for i in items)}
 
 
